@@ -5,6 +5,7 @@ import (
 	"reflect"
 	"strings"
 	"testing"
+	"time"
 
 	ap "github.com/go-ap/activitypub"
 	"pgregory.net/rapid"
@@ -102,6 +103,18 @@ func c13Pool(kind string, variant string) []ap.Item {
 			return out
 		}
 		return []ap.Item{ap.IRI(ids[0]), ap.IRI(ids[1]), &ap.Object{ID: ap.IRI(ids[2]), Type: ap.NoteType}, &ap.Actor{ID: ap.IRI(ids[3]), Type: ap.PersonType}, ap.IRI(ids[4]), ap.IRI(ids[5])}
+	}
+	if variant == "instants" && kind != "IRIs" {
+		// members whose instants are what a clock hands out: fractions of a second, another zone, before 1970 - each member is itself
+		t0 := time.Date(2024, 2, 29, 23, 59, 59, 123456789, time.FixedZone("plus0530", 5*3600+1800))
+		return []ap.Item{
+			&ap.Object{ID: "https://example.com/stamped/1", Type: ap.NoteType, Updated: t0, Published: t0.Add(-time.Hour)},
+			&ap.Actor{ID: "https://example.com/stamped/2", Type: ap.PersonType, Updated: t0.Add(999999999 - 123456789), Published: t0.UTC()},
+			&ap.Activity{ID: "https://example.com/stamped/3", Type: ap.UpdateType, Updated: time.Date(1969, 12, 31, 23, 59, 59, 500000000, time.UTC), StartTime: t0, EndTime: t0.Add(time.Millisecond)},
+			ap.Object{ID: "https://example.com/stamped/4", Type: ap.ArticleType, Updated: time.Unix(1700000000, 1)},
+			&ap.Tombstone{ID: "https://example.com/stamped/5", Type: ap.TombstoneType, Deleted: t0, Updated: t0.Add(time.Nanosecond)},
+			&ap.Question{ID: "https://example.com/stamped/6", Type: ap.QuestionType, Updated: t0.Add(500 * time.Millisecond), EndTime: t0},
+		}
 	}
 	if variant == "opaque" {
 		// identities that are URIs without an authority (urn:, acct:, did:, mailto:, tag:): distinct strings, distinct members
@@ -222,6 +235,7 @@ func c13KindVariants() [][2]string {
 			for i := 0; i < 13; i++ {
 				out = append(out, [2]string{k, fmt.Sprintf("twin%d", i)})
 			}
+			out = append(out, [2]string{k, "instants"})
 		}
 	}
 	return out
